@@ -519,6 +519,14 @@ func c39Run(c c39Case) (V, Verdict) {
 		case c.Init.Pool > 1 && class == "NotSupported":
 			return obs, Pass("init-rejected/pool-size", false)
 		}
+		if class == "InvalidAccess" && len(c.Init.Servers) == 0 { // no ICE server to blame: the certificate check
+			for _, x := range initCfg.Certificates {
+				if x.Expires().IsZero() {
+					return obs, Fail("zero-expiry-certificate-rejected-as-expired", err.Error())
+				}
+			}
+			return obs, Fail("unexpired-certificate-rejected-as-expired", err.Error())
+		}
 		return obs, Fail("initial-configuration-rejected", err.Error())
 	}
 	defer pc.Close() //nolint
